@@ -72,6 +72,99 @@ def rows_of(bem, sch):
     return cons, rows
 
 
+def table_zone_headers(repo=None):
+    """The zone names the source tables themselves give to their 16 data columns (row `Zone` of every
+    resources/DOERefBuildings/BLDn/BLDn_LocationSummary.csv, one per era block; '7.000..' -> '7').
+    -> {(n, era_block): [16 names]}; independent of the label constants of uwg/utilities.py."""
+    import csv
+    repo = repo or core.REPO
+    out = {}
+    base = os.path.join(repo, 'resources', 'DOERefBuildings')
+    for n in range(1, 17):
+        path = os.path.join(base, 'BLD%d' % n, 'BLD%d_LocationSummary.csv' % n)
+        with open(path, encoding='latin-1', newline='') as f:
+            rows = list(csv.reader(f))
+        blk = 0
+        for r in rows:
+            if len(r) > 19 and r[1].strip() == 'Zone':
+                names = []
+                for c in r[4:20]:
+                    c = c.strip()
+                    if c.replace('.', '').isdigit():
+                        c = str(int(float(c)))
+                    names.append(c)
+                out[(n, blk)] = names
+                blk += 1
+    return out
+
+
+def table_construction_names(repo=None):
+    """Construction-type names of the `TypeWall` / `TypeRoof` rows of the 16 LocationSummary tables and the names
+    the reader's if/elif chains compare them with (read from the source text of readDOE.py).
+    -> (names in tables {('wall'|'roof', name): [table numbers]}, names known to the reader {'wall': set, 'roof': set})"""
+    import csv
+    import re
+    repo = repo or core.REPO
+    base = os.path.join(repo, 'resources', 'DOERefBuildings')
+    used = {}
+    for n in range(1, 17):
+        path = os.path.join(base, 'BLD%d' % n, 'BLD%d_LocationSummary.csv' % n)
+        with open(path, encoding='latin-1', newline='') as f:
+            rows = list(csv.reader(f))
+        for r in rows:
+            if len(r) > 19 and r[1].strip() in ('TypeWall', 'TypeRoof'):
+                for c in r[4:20]:
+                    used.setdefault(('wall' if r[1].strip() == 'TypeWall' else 'roof', c.strip()), set()).add(n)
+    src = open(os.path.join(repo, 'uwg', 'readDOE.py'), encoding='utf-8', errors='ignore').read()
+    known = {'wall': set(re.findall(r'TypeWall\[j\]\[k\]\s*==\s*["\']([^"\']+)["\']', src)),
+             'roof': set(re.findall(r'TypeRoof\[j\]\[k\]\s*==\s*["\']([^"\']+)["\']', src))}
+    return {k: sorted(v) for k, v in used.items()}, known
+
+
+def element_sharing(bem):
+    """how many cells of the 16 x 3 x 16 matrix hold one and the same Element object: [(role, cells, first cell,
+    types involved)] for every Element held by more than one cell"""
+    own = {}
+    for i in range(16):
+        for j in range(3):
+            for k in range(16):
+                for role in ('wall', 'roof', 'mass'):
+                    own.setdefault((role, id(getattr(bem[i][j][k], role))), []).append((i, j, k))
+    out = []
+    for (role, _), cells in own.items():
+        if len(cells) > 1:
+            out.append((role, len(cells), cells[0], sorted({bem[c[0]][0][0].bldtype for c in cells})))
+    return sorted(out)
+
+
+def label_problems(bem, sch, consts, headers):
+    """Agreement of the three places that say which matrix position is which archetype: the text labels stored
+    in the objects, the ordered label constants (REF_BLDTYPE / REF_BUILTERA / REF_ZONETYPE) and the `Zone` header
+    row of the source tables. Returns a list of (cell, message)."""
+    types, eras, zones = consts
+    out = []
+    if len(types) != 16 or len(eras) != 3 or len(zones) != 16 or len(set(types)) != 16 or len(set(zones)) != 16:
+        out.append((None, 'label constants are not 16 distinct types x 3 eras x 16 distinct zones'))
+        return out
+    for (n, blk), names in sorted(headers.items()):
+        if names != list(zones):
+            d = [k for k in range(16) if names[k] != zones[k]]
+            out.append(((n - 1, blk, d[0]), 'table BLD%d (block %d) heads column %d with zone %r, REF_ZONETYPE[%d] is %r'
+                        % (n, blk, d[0], names[d[0]], d[0], zones[d[0]])))
+    for i in range(16):
+        for j in range(3):
+            for k in range(16):
+                b, s = bem[i][j][k], sch[i][j][k]
+                want = (types[i], eras[j], zones[k])
+                if (b.bldtype, b.builtera, b.zonetype) != want:
+                    out.append(((i, j, k), 'BEMDef at [%d][%d][%d] is labelled %r, the constants say %r'
+                                % (i, j, k, (b.bldtype, b.builtera, b.zonetype), want)))
+                if (s.bldtype, s.builtera) != want[:2] or getattr(s, 'zonetype', want[2]) != want[2]:
+                    out.append(((i, j, k), 'SchDef at [%d][%d][%d] is labelled %r, the constants say %r'
+                                % (i, j, k, (s.bldtype, s.builtera, getattr(s, 'zonetype', None)), want)))
+    return out
+
+
 def pack_dbl(p):
     """(numerator, power-of-two denominator) -> mantissa * 2^16 + exponent  (< 2^80)."""
     num, den = p
